@@ -11,9 +11,10 @@ def files():
 
 
 class _File:
-    def __init__(self, path, mode):
+    def __init__(self, path, mode, encoding=None):
         self.path = path
         self.mode = mode
+        self.encoding = encoding
         self.closed = False
 
     def __enter__(self):
@@ -29,6 +30,9 @@ class _File:
     def write(self, text):
         if 'w' not in self.mode and 'a' not in self.mode:
             raise OSError('not writable')
+        if self.encoding is not None and self.encoding.lower().replace('-', '').replace('_', '') in ('ascii', 'usascii') and not vprim.text_isascii(text):
+            # the encoder fails inside write(): whatever open() did to the destination has already happened
+            raise UnicodeEncodeError('ascii codec cannot encode the text')
         vprim.event('fs', op='write', path=self.path)
         f = files()[self.path]
         f['content'] = f['content'] + text
@@ -54,10 +58,11 @@ class _File:
 
 def open_(path, mode='r', *args, **kwargs):
     fs = files()
+    encoding = kwargs.get('encoding', args[1] if len(args) > 1 else None)
     if 'w' in mode:
         vprim.event('fs', op='open_w', path=path)
         fs[path] = {'content': '', 'gz': False}
-        return _File(path, mode)
+        return _File(path, mode, encoding)
     if path not in fs:
         raise FileNotFoundError(path)
-    return _File(path, mode)
+    return _File(path, mode, encoding)
